@@ -415,7 +415,7 @@ pub fn open_findings_for(prop: &str) -> Vec<Json> {
 pub fn open_ids_for(prop: &str) -> Vec<String> {
     known_findings()
         .into_iter()
-        .filter(|f| f["status"] == "open" && (f["scope"] == "codec" || f["property"] == prop || f["also"].as_array().map(|a| a.iter().any(|x| x == prop)).unwrap_or(false)))
+        .filter(|f| f["status"] == "open" && (f["scope"] == "codec" || f["scope"] == "engine" || f["property"] == prop || f["also"].as_array().map(|a| a.iter().any(|x| x == prop)).unwrap_or(false)))
         .filter_map(|f| f["id"].as_str().map(|s| s.to_string()))
         .collect()
 }
